@@ -224,7 +224,7 @@ def run(shard):
     import hcommon as H
     import decode_oracles as D
     H.import_repo()
-    from code_data import Function
+    Function = H.lib("Function")
 
     KIND = {inspect.Parameter.POSITIONAL_ONLY: "po", inspect.Parameter.POSITIONAL_OR_KEYWORD: "pk",
             inspect.Parameter.VAR_POSITIONAL: "vp", inspect.Parameter.KEYWORD_ONLY: "ko",
@@ -293,4 +293,4 @@ def run(shard):
             H.distinct(repr((code.co_argcount, code.co_kwonlyargcount, getattr(code, "co_posonlyargcount", 0), fl,
                              code.co_varnames[:nparams], first if isinstance(first, (str, bytes, type(None))) else type(first).__name__)))
 
-    D.drive(shard, "C04", on_decoded, "C04.decoded")
+    D.drive(shard, "C04", on_decoded, "C04.decoded", stress_same=D.same_types)
